@@ -426,3 +426,27 @@ def dst_grid(tid: int, seed: int) -> dict:
     tr = w.trace(tid, "dst")
     w.cleanup()
     return tr
+
+
+def fh_table(tid: int, seed: int) -> dict:
+    """The configuration API of the fault-handler table: set_handler for EVERY condition code x handler code (C14)."""
+    from spacepackets.cfdp import ConditionCode, FaultHandlerCode
+
+    from world import RecFH
+    ev = []
+    names = {FaultHandlerCode.NOTICE_OF_CANCELLATION: "cancel", FaultHandlerCode.IGNORE_ERROR: "ignore",
+             FaultHandlerCode.ABANDON_TRANSACTION: "abandon", FaultHandlerCode.NOTICE_OF_SUSPENSION: "suspend"}
+    for cond in ConditionCode:
+        for code in FaultHandlerCode:
+            if code not in names:
+                continue
+            fh = RecFH(None, "S", {})
+            exc, got = "none", "none"
+            try:
+                fh.set_handler(cond, code)
+                g = fh.get_fault_handler(cond)
+                got = names.get(g, "none")
+            except Exception as e:  # noqa: BLE001
+                exc = type(e).__name__
+            ev.append(dict(side="E", call="set_handler", cond=cond.name, code=names[code], exc=exc, got=got))
+    return dict(tid=tid, kind="fhtable", cfg=mkcfg(), sched=[], fs0=[], props=[], ev=ev)
